@@ -94,10 +94,16 @@ def conclude(prop, tier, seed, results, t0, a):
     errors = [r for r in results if r["error"]]
     undecided = [r for r in results if r["undecided"]]
     obs = []
+    infos = []
     for r in results:
         for ob in r["obligations"]:
-            if table.selects(prop, ob):
+            if ob["status"] == "info":
+                infos.append(ob)
+            elif table.selects(prop, ob):
                 obs.append(ob)
+    if table.PROPS[prop].get("derived"):
+        from props import locksets
+        obs += locksets.derive(prop, table.PROPS[prop]["derived"], infos, ROOT)
     # one obligation = one (name, site); it is discharged when it is discharged on every path
     groups = {}
     for ob in obs:
